@@ -454,6 +454,45 @@ var unreduced = []uprog{
 		vs.Select(vs.SendCase(c, 5), vs.Case(never))
 		fin.Recv()
 	}, []string{"|got5"}},
+	{"try-send-unbuffered-receiver-maybe-there", func() {
+		// a non-blocking send on an UNBUFFERED channel succeeds only if the receiver has arrived;
+		// a receiver whose next step is the receive may or may not have: both answers
+		c := vs.NewChan[int](0)
+		fin := vs.NewChan[int](1)
+		vs.Go(func() {
+			v, ok := c.Recv2()
+			note("got", v, ok)
+			fin.Send(1)
+		})
+		if vs.SelectDefault(vs.SendCase(c, 3)) == 0 {
+			note("sent")
+		} else {
+			note("default")
+			c.Close()
+		}
+		fin.Recv()
+	}, []string{"|default,got0 false", "|got3 true,sent"}},
+	{"try-recv-unbuffered-sender-maybe-there", func() {
+		c := vs.NewChan[int](0)
+		fin := vs.NewChan[int](1)
+		stop := vs.NewChan[int](1)
+		vs.Go(func() {
+			if vs.Select(vs.SendCase(c, 4), vs.Case(stop)) == 0 {
+				note("delivered")
+			} else {
+				note("stopped")
+			}
+			fin.Send(1)
+		})
+		x := vs.Case(c)
+		if vs.SelectDefault(x) == 0 {
+			note("received")
+		} else {
+			note("default")
+			stop.Send(1)
+		}
+		fin.Recv()
+	}, []string{"|default,stopped", "|delivered,received"}},
 	{"blocking-select-send-no-room-ever", func() {
 		sem := vs.NewChan[int](1)
 		sem.Send(0)
